@@ -792,6 +792,7 @@ func (r *Raft) submitReadOnlyOperation(
 		Bytes:         operationBytes,
 		OperationType: readOnlyType,
 		readIndex:     readIndex,
+		round:         r.operationManager.round,
 	}
 	r.operationManager.pendingReadOnly[operation] = operationFuture.responseCh
 
@@ -982,25 +983,28 @@ func (r *Raft) AppendEntries(request *AppendEntriesRequest, response *AppendEntr
 
 // sendAppendEntriesToPeers sends an AppendEntries RPC to all nodes.
 func (r *Raft) sendAppendEntriesToPeers() {
+	r.operationManager.round++
+	round := r.operationManager.round
+
 	// Handle the single node cluster case.
 	if r.isSingleServerCluster() {
 		if r.log.LastIndex() > r.commitIndex {
 			r.commitCond.Broadcast()
 		}
-		r.tryApplyReadOnlyOperations()
+		r.tryApplyReadOnlyOperations(round)
 	}
 
 	numResponses := 1
 	for id, address := range r.configuration.Members {
 		if id != r.id {
-			go r.sendAppendEntries(id, address, &numResponses)
+			go r.sendAppendEntries(id, address, &numResponses, round)
 		}
 	}
 }
 
 // sendAppendEntries sends an AppendEntries RPC to a node with the provided ID
 // and address.
-func (r *Raft) sendAppendEntries(id string, address string, numResponses *int) {
+func (r *Raft) sendAppendEntries(id string, address string, numResponses *int, round uint64) {
 	r.mu.Lock()
 	defer r.mu.Unlock()
 
@@ -1075,7 +1079,7 @@ func (r *Raft) sendAppendEntries(id string, address string, numResponses *int) {
 	if numResponses != nil && r.isVoter(id) {
 		*numResponses += 1
 		if r.hasQuorum(*numResponses) {
-			r.tryApplyReadOnlyOperations()
+			r.tryApplyReadOnlyOperations(round)
 			numResponses = nil
 		}
 	}
@@ -1986,8 +1990,8 @@ func (r *Raft) stepdown() {
 
 // tryApplyReadOnlyOperations renews the lease and notifies the read-only
 // loop that it may be possible to apply some read-only operations.
-func (r *Raft) tryApplyReadOnlyOperations() {
-	r.operationManager.markAsVerified()
+func (r *Raft) tryApplyReadOnlyOperations(round uint64) {
+	r.operationManager.markAsVerifiedBy(round)
 	r.operationManager.leaderLease.renew()
 	r.operationManager.shouldVerifyQuorum = true
 	r.readOnlyCond.Broadcast()
